@@ -28,6 +28,12 @@ def _token_filter(prefixes):
     return f
 
 
+def _either(*fs):
+    def f(pid, d):
+        return any(g(pid, d) for g in fs)
+    return f
+
+
 _TOKEN_NOTE = ("Trusted: Lean kernel; Model/Envelope.lean and Model/Token.lean render envelope/ipld.go, the two tokenFromModel/toIPLD pairs and validate() by hand; "
                "bindnode's schema strictness, dagcbor/dagjson, libp2p signatures, base58 and key unmarshalling are dependencies represented by model functions and oracle parameters "
                "(the harness computes signature validity, the canonical key bytes and strings.ToLower with the libraries directly, never with go-ucan) — all tied differentially, not proved; "
@@ -121,8 +127,9 @@ PROPS = {
     "C04": dict(
         tie=["Ucan.Props.Tie.ChainTime", "Ucan.Props.Tie.ChainOrder"],
         props_module="Ucan.Props.C04",
-        streams=["chain"],
-        filter=_chain_filter(clauses=["time"]),
+        streams=["chain", "token"],
+        # the time fields of decoded tokens (what `parse.OptionalTimestamp` makes of the signed integers) belong to C04 too
+        filter=_either(_chain_filter(clauses=["time"]), _token_filter(["token.field-special:exp", "token.field-special:nbf", "token.field-special:iat"])),
         technique="Lean 4 proof of the validity window for every instant and of allowed ⇒ invocation and every link valid now; tied by IsValidAt probes at bound ± {1 ns, 1 s, 1 h} and by chains with past/future bounds at every position (direction: Go allows ⇒ model allows; IsValidAt: equality away from the exact bound)",
         level_text="C04_inside / C04_outside (delegations), C04_inv_inside / C04_inv_outside (invocations), absent bound = unbounded, C04_sound (allowed ⇒ invocation valid and every delegation valid at the check time). Go's IsValidAt is compared with the model on both sides of each bound for all present/absent combinations; ExecutionAllowed on every past/future/absent combination of nbf/exp on the invocation and each of 1–2 (3 thorough) links.",
         level_note=_CHAIN_NOTE + " Wall-clock reads and time.Time's monotonic-clock handling are not modelled; bounds in chain scenarios sit two hours from now.",
@@ -163,7 +170,8 @@ PROPS = {
     "C06": dict(
         props_module="Ucan.Props.C06",
         streams=["token"],
-        filter=_token_filter(["token.envelope:sig-", "token.envelope:hdr-", "token.bitflip", "token.honest"]),  # incl. sig-old-field, sig-concurrent, hdr-old-sig
+        # incl. sig-old-field, sig-concurrent, hdr-old-sig; field-special: a correctly signed value must come out as signed
+        filter=_token_filter(["token.envelope:sig-", "token.envelope:hdr-", "token.bitflip", "token.honest", "token.field-special:"]),
         technique="Lean 4 proof that an accepted envelope was inspected to exactly [signature, {header, tagged payload}], that the header is the varsig header of the issuer key's type (table regenerated from varsig.go), that the signature verifies under the key of the issuer DID of the DECODED payload over the canonical encoding of the decoded SigPayload, and (with injectivity of the encoding, C08) that every decoded field is a function of the signed bytes; tied by harness-built, re-signed and corrupted envelopes incl. every single-bit flip",
         level_text="C06_verified, C06_decoded_parts_are_signed, C06_fields_function_of_signed_bytes, C06_inspect_shape for every node and every instantiation of the crypto parameters. Go's six decoders are compared with the model on honest tokens (3–5 key algorithms), foreign/garbage/missing varsig headers, signatures by another key, truncated/empty/non-bytes signatures, and every third (every, thorough) single-bit flip of sealed Ed25519 tokens; accept/reject and all decoded fields.",
         level_note=_TOKEN_NOTE + " Conditional on EUF-CMA of the signature schemes: the theorems reduce 'no accepted modification changes a field' to 'no valid signature on a different message', they do not prove unforgeability.",
